@@ -1,15 +1,50 @@
 # p_cli engine: C34 C35 C48 (subprocess of the freshly built CLI binary $VERIF_BIN/d2)
 PROPS = {
     "C34": dict(
-        engine="p_cli", quick_checks=160, thorough_checks=4000, quick_shards=16, thorough_shards=16,
-        quick_budget_s=240, thorough_budget_s=1500, needs_cli=True, level="exploration", shrinktime="6s",
-        rule="TODO",
-        assumptions=[],
+        engine="p_cli", quick_checks=128, thorough_checks=4000, quick_shards=16, thorough_shards=16,
+        quick_budget_s=300, thorough_budget_s=1500, needs_cli=True, level="exploration", shrinktime="6s",
+        rule="board trees (<=3 levels, <=9 boards, layers/scenarios/steps, 0-2 own shapes per board) whose names are drawn from plain names, a table of "
+             "path constructs (.., ., index, layers, a/b, a\\b, /abs, x/.., ./x, x//y, '', blanks, quotes, unicode, --layout, $HOME, tmp-o.svg-1, o.svg, "
+             "in.d2 ...), long names (100..4100 bytes), the hostile-name pool and names derived from a sibling/parent (<sib>/index, <sib>/<leaf>, "
+             "<sib>.svg, ../<sib>, <sib>/.., ./<sib>, <sib>/); core = every table name as a lone layer / with a child beside a sibling / beside a scenario. "
+             "Each case runs `d2 --layout dagre in.d2 out/o.svg` in work/sb/<n>/l1/l2/l3/l4/l5 (sentinel at every level, HOME/TMPDIR/XDG inside, "
+             "<=2 '..' per board path, checked again in the oracle). Oracle: every pre-existing file outside out/o/ and out/o.svg byte- and inode-identical, "
+             "nothing created outside, number of files written under out/o/ == number of boards that are not folder-only (IsFolderOnly of an in-process "
+             "compile), no output path reported twice. non-trivial = >=3 boards and >=1 name with a path construct.",
+        assumptions=["the 'directory derived from the output path' of a multi-board render of out/o.svg is out/o/ (render(): output path minus extension); "
+                     "writing out/o.svg itself is tolerated",
+                     "a CLI error exit (name too long, file/directory clash) is not a violation of the one-file-per-board half (counted gray); the "
+                     "safety half is still asserted"],
     ),
     "C35": dict(
         engine="p_cli", quick_checks=16000, thorough_checks=400000, quick_shards=16, thorough_shards=16,
-        quick_budget_s=240, thorough_budget_s=1500, needs_cli=True, level="exploration", shrinktime="6s",
-        rule="TODO",
-        assumptions=[],
+        quick_budget_s=300, thorough_budget_s=1500, needs_cli=True, level="exploration", shrinktime="6s",
+        rule="board trees (<=8 boards, <=3 levels, plain/quoted/dotted/keyword-like names) whose bodies may come from imported files (board value `x: @f`, "
+             "spread `...@f` first or last, at the root too; memfs), objects (flat or nested in a container, three ways of writing the link) with links "
+             "drawn as key segments: relative to a descendant, absolute (`root` = root of the file the text is in), `_`-relative via the common ancestor "
+             "(sometimes one `_` too many), self, URLs / other text, keyword in another letter case; then mutated (dangling segment, wrong kind word, "
+             "unknown name, extra level, last segment dropped). Oracle A: every object's compiled link in every board (g.Layers/Scenarios/Steps) against a "
+             "reference resolver over the logical tree: existing other board -> its absolute path; missing or self -> dropped; URL -> verbatim; for objects "
+             "inherited into scenarios/steps only 'dropped or an existing other board'. Oracle B (about 0.7 % of the cases + 36 core cases): the real CLI "
+             "renders the same sources, board->file from the run's own report (verified by a marker shape per board), every <a href> of every SVG == "
+             "relative path between the two files for each stored link. non-trivial = >=1 link to a board of another level and >=1 dropped link.",
+        assumptions=["link text that is not a URL and does not start with root/_/layers/scenarios/steps (the code drops it), board keywords in another letter "
+                     "case and `_` used as a board name are left open by the statement: counted gray, not asserted",
+                     "`root` inside an imported file denotes the importing board (rebasing), `_` above it continues into the importing file",
+                     "cases whose compiled board tree differs from the written one (spread import of a file with steps/scenarios into a board with own "
+                     "steps: about 1 %) are rejected"],
+    ),
+    "C48": dict(
+        engine="p_cli", quick_checks=16, thorough_checks=96, quick_shards=16, thorough_shards=16,
+        quick_budget_s=400, thorough_budget_s=1800, needs_cli=True, level="fault_enumeration", shrinktime="1s",
+        rule="one case = (command, input, tracer): `d2 fmt f.d2` on an unformatted source of exactly N bytes (quick core 1 B, 5000 B, 2 MiB; thorough 12 sizes; "
+             "rapid log-uniform 1 B..2 MiB) or a single-board `d2 --layout dagre in.d2 out/out.svg` over an existing out.svg (1-120 shapes, old file 0 B..3 MiB). "
+             "An uninjected traced run on a copy gives the new bytes and the list of file-system calls touching the target (strace -f -P <target>) or any "
+             "path under the output directory incl. the temp file (ptrace helper testdata/killat.c, global numbering); then one run per listed call with the "
+             "process SIGKILLed on entry to it (strace inject=<call>:signal=SIGKILL:when=<n>, n per call name; killat -k <index>). Oracle: target == old "
+             "bytes or == new bytes. Evidence extras: <cmd>_kill_points_enumerated / _hit (died exactly there) / _missed (no kill: strace counts per thread) / "
+             "_kills_elsewhere. non-trivial = a hit point strictly between the first and the last listed call.",
+        assumptions=["the kill arrives on entry to a system call (before it runs); kills inside the kernel's write are not enumerated",
+                     "CLI runs use GOMAXPROCS=1 to keep the calls on few threads"],
     ),
 }
